@@ -8,6 +8,7 @@ Require Import DS.Model.PyStr DS.Gen.GenNorm DS.Model.GC DS.Proofs.GCNormProofs 
 Require Import DS.Model.GCPointer DS.Proofs.GCPointerProofs DS.Proofs.PyStrProofs DS.Model.GCHist DS.Proofs.GCHistProofs.
 Require Import DS.Model.Doc DS.Gen.GenDoc DS.Model.GCDoc DS.Proofs.GCDocProofs.
 Require Import DS.Gen.GenGCMarker DS.Proofs.GCMarkerGenProofs.
+Require Import DS.Gen.GenLocalList DS.Model.LocalList DS.Proofs.LocalListProofs.
 Import ListNotations.
 Open Scope string_scope.
 Open Scope Z_scope.
@@ -497,4 +498,33 @@ Example C07_marker_stat_nonvacuous :
   /\ fst (mk_run (oracle_of [(0%nat, FBad)])) = ["data/f1.parquet"]
   /\ (fst (mk_run no_faults), map fst (g_store (snd (mk_run no_faults)))) = ([], ["data/f1.parquet"])
   /\ gen_marker_protects (gen_marker_age_ok 100 (Some 5)) true = false.
+Proof. repeat split; vm_compute; reflexivity. Qed.
+
+(* ---- a listing that fails BELOW the backend interface.  LocalStorageBackend.list_files has two places where a failure of the
+   operating system can be swallowed -- the guard in front of the walk and os.walk's treatment of directories it cannot scan;
+   both are REGENERATED from the source (translator/gen_locallist.py -> Gen/GenLocalList.v) as predicates over the failure's
+   class (absent = "the object is not there": FileNotFoundError / NotADirectoryError; otherwise EACCES, EIO, ESTALE, ...).
+   Model/LocalList.v local_list_outcome puts them together.  For every combination of failures: a listing that returns
+   without raising although something could not be looked at comes only from "not there" failures -- any other failure
+   propagates (to the collector: a raising listing call). *)
+Theorem C07_local_listing_fails_closed : forall (probe walk : option bool),
+  local_list_outcome probe walk = LShort -> probe = Some true \/ (probe = None /\ walk = Some true).
+Proof. exact local_listing_fails_closed. Qed.
+Print Assumptions C07_local_listing_fails_closed.
+
+(* ... and a marker listing that raises -- any exception class, for every fault oracle, whatever it does afterwards -- ends the
+   loading of the in-flight protection with "aborted" (the regenerated handler: catches Exception, raises
+   GarbageCollectionAborted) and leaves the store as it was. *)
+Theorem C07_marker_listing_raise_aborts : forall (tp : string) (timeout now : Z) (o : oracle) (g : gst) (f : fault),
+  o (g_calls g) = Some f -> f <> FBad ->
+  gen_marker_listing_failure_aborts = true
+  /\ fst (load_protection tp timeout now o g) = None
+  /\ g_store (snd (load_protection tp timeout now o g)) = g_store g.
+Proof. exact marker_listing_raise_aborts. Qed.
+Print Assumptions C07_marker_listing_raise_aborts.
+
+Example C07_local_listing_nonvacuous :
+  local_list_outcome (Some false) None = LRaise /\ local_list_outcome None (Some false) = LRaise
+  /\ local_list_outcome (Some true) None = LShort /\ local_list_outcome None None = LComplete
+  /\ fst (load_protection "/t" 10 100 (oracle_of [(0%nat, FRaise)]) (mkG 0 mk_st [])) = None.
 Proof. repeat split; vm_compute; reflexivity. Qed.
